@@ -138,6 +138,7 @@ Case gen_C19(uint64_t seed, long run, const GenCfg &g, const char *inflight) {
         for (int k = 0; k < cnt; k++) {
             Op u; u.kind = "util"; u.slot = (slot1 && ru.chance(0.3)) ? 1 : 0; u.stages = 1 + (int)ru.below(63);
             u.nrhs = ru.range(1, 3); u.ldpad = ru.chance(0.4) ? ru.range(1, 3) : 0; u.trans = ru.chance(0.5) ? TRANS : NOTRANS; u.rhs_seed = ru.next();
+            u.stages |= ((u.rhs_seed >> 20) & 1 ? 64 : 0) | ((u.rhs_seed >> 21) & 1 ? 128 : 0); // direct sp_?gemv / sp_?trsv calls
             size_t pos = 1 + (size_t)ru.below(ops.size() - 2);
             ops.insert(ops.begin() + pos, u);
         }
